@@ -38,9 +38,12 @@ func (t *TB) Fatal(args ...any) {
 	t.Msg = fmt.Sprint(args...)
 	panic("fx.TB.Fatal: " + t.Msg)
 }
-func (t *TB) Errorf(format string, args ...any) { t.Failed_ = true; t.Msg = fmt.Sprintf(format, args...) }
-func (t *TB) Logf(string, ...any)                {}
-func (t *TB) Cleanup(func())                     {}
+func (t *TB) Errorf(format string, args ...any) {
+	t.Failed_ = true
+	t.Msg = fmt.Sprintf(format, args...)
+}
+func (t *TB) Logf(string, ...any) {}
+func (t *TB) Cleanup(func())      {}
 
 // Image returns the repository's example firmware (valid SEV-SNP metadata; valid TDX metadata when
 // size is 2 MiB) with the free area filled pseudo-randomly from seed so that images differ.
